@@ -1,7 +1,7 @@
 (** Correspondence glue for units h3frames / h3stream: a case is what the Go harness logged
     from the real frameParser / Stream / body running over a scripted quic stream. *)
 From Coq Require Import List ZArith Bool String.
-From V Require Import Gen.Params Lib.Hex Wire.Varint H3Stream.Model.
+From V Require Import Gen.Params Lib.Hex Wire.Varint H3Stream.Model H3Stream.Conn.
 Import ListNotations.
 Open Scope Z_scope.
 
@@ -20,7 +20,8 @@ Inductive case :=
 | StreamCase (data : string) (sched : list Z) (fin : Z * Z) (finWith : bool)
              (mode : Z) (nc : bool) (maxHdr : Z) (wfail : Z) (ops : list op)
              (res : list opres) (cancels : list (Z * Z)) (closed : option Z)
-             (trailers : list string) (written : list string) (rem : Z) (left : Z).
+             (trailers : list string) (written : list string) (rem : Z) (left : Z)
+| ConnCase (isServer : bool) (streams : list (string * bool)) (closed : option Z) (stops : list (option Z)).
 
 (** error <-> the harness's (class, argument) pairs *)
 Definition err_code (e : err) : Z * Z :=
@@ -127,7 +128,8 @@ Definition opres_eqb (m : list Z * Z * (Z * Z) * bool) (o : opres) : bool :=
 Inductive obs :=
 | FrameObs (res : list fres) (closed : option Z) (left : Z)
 | StreamObs (res : list (list Z * Z * (Z * Z) * bool)) (cancels : list (Z * Z)) (closed : option Z)
-            (trailers : list (list Z)) (written : list (list Z)) (rem : Z) (left : Z).
+            (trailers : list (list Z)) (written : list (list Z)) (rem : Z) (left : Z)
+| ConnObs (closed : option Z) (stops : list (option Z)).
 
 Definition model_obs (c : case) : obs :=
   match c with
@@ -140,6 +142,9 @@ Definition model_obs (c : case) : obs :=
     let '(rs, r') := rig_run r ops in
     let x' := rig_stream r' in
     StreamObs rs (rig_cancels r') (x_closed x') (x_trailers x') (x_written x') (x_rem x') (zlen (s_data (x_src x')))
+  | ConnCase isServer streams _ _ =>
+    let '(c, stops) := conn_run (new_conn isServer) (map (fun p => (hx (fst p), snd p)) streams) in
+    ConnObs (c_closed c) stops
   end.
 
 Definition check_case (c : case) : bool :=
@@ -152,5 +157,7 @@ Definition check_case (c : case) : bool :=
     && list_eqb pair_eqb cancels' cancels && opt_eqb closed' closed
     && list_eqb zeqb_list trailers' (map hx trailers) && list_eqb zeqb_list written' (map hx written)
     && (rem' =? rem) && (lft' =? lft)
+  | ConnCase _ _ closed stops, ConnObs closed' stops' =>
+    opt_eqb closed' closed && list_eqb opt_eqb stops' stops
   | _, _ => false
   end.
